@@ -112,7 +112,7 @@ def gen_quic_conn(R, cid, cfg, used, **epkw):
     z = None
     q["c_fin_1rtt"] = H.chance(40)
     # 0-RTT when the negotiated suite is not the first one offered hits a known finding (KF-2): kept rare
-    if H.chance(cfg.get("zero_rtt_pct", 20)) and (offered[0] == suite or H.chance(cfg.get("zero_rtt_any_suite_pct", 25))):
+    if H.chance(cfg.get("zero_rtt_pct", 20)) and (offered[0] == suite or H.chance(cfg.get("zero_rtt_any_suite_pct", 0))):
         z = {"coalesce": H.chance(50), "pk": []}
         st = {}
         for _ in range(H.range(1, 3)):
